@@ -18,6 +18,7 @@ import (
 	"strings"
 	"time"
 
+	"github.com/gotd/log"
 	"github.com/gotd/neo"
 
 	"github.com/gotd/td/bin"
@@ -155,6 +156,7 @@ func New(cfg Config, src Src) *Sim {
 		MaxRetries:    cfg.MaxRetries,
 		Clock:         simClock{s},
 		DropHandler:   s.drop,
+		Logger:        simLogger{s},
 	})
 	return s
 }
@@ -360,6 +362,18 @@ func (s *Sim) notifByVal(v uint64) *Notif {
 		}
 	}
 	return nil
+}
+
+// ---- logger: the engine's log records are callbacks into the environment; the record at the head
+// of the result handler is used as a scheduling point (handler.log: handler entered, CAS not yet done).
+
+type simLogger struct{ s *Sim }
+
+func (l simLogger) Enabled(context.Context, log.Level) bool { return true }
+func (l simLogger) Log(_ context.Context, _ log.Level, msg string, _ ...log.Attr) {
+	if msg == "Handler called" && l.s.cur != nil && l.s.cur.notif != nil {
+		l.s.park("handler.log")
+	}
 }
 
 // ---- clock
